@@ -75,7 +75,7 @@ def run(tier, seed, replay=None):
     pid = "C13"
     res = Result(pid, tier, seed)
     orch.gen_mod.main()
-    lean_ok, lean_log, dt = orch.lake_build(["SafeC.Props.C13", "safec_model"])
+    lean_ok, lean_log, dt = orch.lake_build(orch.prop_targets("C13"))
     drv_ok = lean_ok or orch.lake_build(["safec_model"])[0]
     obs = orch.obligations(pid)
     audit, _ = orch.audit_axioms(pid, obs) if lean_ok else ([dict(o, ok=False, axioms=None, error="build failed") for o in obs], "")
